@@ -189,6 +189,10 @@ def mutate(r, o, prof=HOSTILE, ops=None, rate=0.35):
             o = dict(items)
             ops.append("permute-keys")
         return o
+    if prof.bool_with_01 and (isinstance(o, bool) or (isinstance(o, int) and o in (0, 1))) and r.random() < 0.15:
+        # the python-equal twin across bool / int (true <-> 1, false <-> 0): a different value for every file format
+        ops.append("bool-int-twin")
+        return int(o) if isinstance(o, bool) else bool(o)
     if prof.integral_floats and isinstance(o, (int, float)) and not isinstance(o, bool) and r.random() < 0.12 \
             and float(o) == o and abs(o) < 2**53:
         # the numerically equal twin of the other numeric type (1 <-> 1.0)
